@@ -240,13 +240,19 @@ func (el *eventloop) open(c *conn) error {
 	}
 	if out != nil {
 		if err := c.open(out); err != nil {
-			return err
+			if err = el.close(c, os.NewSyscallError("write", err)); err != nil {
+				return err
+			}
+			return el.handleAction(c, action)
 		}
 	}
 
 	if !c.outboundBuffer.IsEmpty() && !el.engine.opts.EdgeTriggeredIO {
 		if err := el.poller.ModReadWrite(&c.pollAttachment, false); err != nil {
-			return err
+			if err = el.close(c, err); err != nil {
+				return err
+			}
+			return el.handleAction(c, action)
 		}
 	}
 
